@@ -559,6 +559,7 @@ func (f *Frame) callContract(callee *ssa.Function, con *Contract, args []Val, pc
 		delete(modRefs, poolBufsComp)
 		delete(modRefs, poolArraysComp)
 		delete(modRefs, bufArrComp)
+		delete(modRefs, poolHeldComp) // a callee puts back only what it got itself: our checked-out buffers stay ours
 		delete(modRefs, elemComp(types.Typ[types.Uint8]))
 	}
 	if anything {
